@@ -1,0 +1,16 @@
+//go:build verif
+
+package mitm
+
+// Contracts for govc (contract-based deductive verification, see /verif/DESIGN.md).
+// This file contains comments only and is compiled only with the build tag `verif`.
+
+// Thin contracts used by the proxy core (package martian).
+//@ func (*Config).TLSForHost
+//@   trusted
+//@   ensures result != nil
+//@ func (*Config).HandshakeErrorCallback
+//@   trusted
+//@ func (*Config).H2Config
+//@   trusted
+//@   ensures result != nil
